@@ -249,6 +249,9 @@ class FakeSock:
         if srv is None or srv.refuse:
             raise ConnectionRefusedError(111, 'Connection refused')
         self.conn = srv.new_conn(addr)
+        with self.net.lock:
+            self.net.cur_open += 1
+            self.net.max_open = max(self.net.max_open, self.net.cur_open)
 
     def connect_ex(self, addr):
         try:
@@ -286,6 +289,9 @@ class FakeSock:
             raise OSError(107, 'Transport endpoint is not connected')
 
     def close(self):
+        if self.conn is not None and not self.closed:
+            with self.net.lock:
+                self.net.cur_open -= 1
         self.closed = True
         if self.conn:
             self.conn.client_closed = True
@@ -308,6 +314,8 @@ class FakeNet:
         self.recv_calls = 0
         self.timeouts = 0
         self.gate = None
+        self.cur_open = 0
+        self.max_open = 0
         self.lock = threading.Lock()
 
     def route(self, addr):
